@@ -56,6 +56,9 @@ class History:
                         for i in range(2, len(parts) + 1):
                             u.m.t["/".join(parts[:i])] = "d"
             u.populate(cfg.get("n_root", 4), cfg.get("n_out", 4))
+            self._bg_fd = None
+            if cfg.get("bg_writer"):
+                self._bg_fd = os.open(u.abs(u.root_name + "/" + fsrig.SENT + "-0bg"), os.O_CREAT | os.O_WRONLY, 0o644)
             set_read_size(cfg.get("read_size"))
             import errno as _errno
             import time as _time
@@ -79,6 +82,33 @@ class History:
             try:
                 sess.drain()
                 sess.take()
+                bg_stop = None
+                if cfg.get("bg_writer"):
+                    # another writer hammers a file in the root from its own thread (write(2) releases the GIL): its IN_MODIFY
+                    # records land between the records of the history's own operations - also between the two halves of a
+                    # rename.  Its events are filtered out like the sentinel's.
+                    import threading as _th
+
+                    bg_stop = _th.Event()
+                    bg_fd = self._bg_fd  # opened before the watch started; closed after it ended (no open/close events of its own)
+
+                    def _hammer():
+                        n = 0
+                        while not bg_stop.is_set():
+                            try:
+                                os.pwrite(bg_fd, b"x", 0)
+                            except OSError:
+                                return
+                            n += 1
+                        self.c("bg_writes", n)
+
+                    bg_thread = _th.Thread(target=_hammer, name="wdv-bgwriter", daemon=True)
+                    bg_thread.start()
+                    self._bg = (bg_stop, bg_thread, bg_fd)
+                if cfg.get("selfloop"):
+                    # an entry whose stat() fails with ELOOP for ever (a symlink to itself) appears while the observer runs;
+                    # its name is excluded from the ground truth and its own events are filtered like the sentinel's
+                    os.symlink(fsrig.SENT + "-0loop", u.abs(u.root_name + "/" + fsrig.SENT + "-0loop"))
                 script = cfg.get("script")
                 n_ops = len(script) if script is not None else cfg["n_ops"]
                 for i in range(n_ops):
@@ -98,6 +128,7 @@ class History:
                         do_probe = cfg.get("probe_p", 0.0) > 0 and r.random() < cfg["probe_p"]
                         self._drain_and_check(sess, tree, seg_ops, justify, probes=do_probe)
                         pacer.drained()
+                    u.tick_held()
                     rec = u.do(op)
                     rec["state_after"] = None
                     self.ops.append(list(op))
@@ -106,7 +137,15 @@ class History:
                     if single:
                         self._drain_and_check(sess, tree, seg_ops, justify, probes=False, single=True)
                         pacer.drained()
+                if getattr(self, "_bg", None):
+                    self._bg[0].set()
+                    self._bg[1].join(5)
+                    self._bg = None
                 self._drain_and_check(sess, tree, seg_ops, justify, probes=cfg.get("final_probes", True), final=True)
+                if u.held:
+                    # the late IN_DELETE_SELF / IN_IGNORED of directories that were held open arrive now: nothing may change
+                    u.tick_held(force=True)
+                    self._drain_and_check(sess, tree, seg_ops, justify, probes=cfg.get("final_probes", True), final=True)
                 if cfg.get("root_probe"):
                     self._probe_root(sess)
                 if cfg.get("delete_root"):
@@ -118,12 +157,31 @@ class History:
                            f"a library thread ({rec['thread_class']}) died with {rec['exc_type']}: {rec['exc']} and the stream stalled",
                            traceback=rec["traceback"][-1500:])
                 else:
-                    self.inconclusive = "sentinel not delivered within the watchdog and no library thread died"
+                    # a stalled stream: was monitoring stopped although the root is still there?
+                    emitters = list(sess.obs.emitters)
+                    root_there = os.path.isdir(u.abs(u.root_name))
+                    if root_there and sess.obs.is_alive() and not any(em.is_alive() for em in emitters):
+                        evs = sess.take()
+                        rootdel = [fsrig.ev_desc(x) for x in evs if type(x).__name__ == "DirDeletedEvent" and sess.rel_of(x.src_path) == ""]
+                        self.v("C07", "monitoring-stopped-while-root-exists",
+                               "the watch's emitter stopped by itself although the watched root still exists; later changes are not reported"
+                               + (f" (a DirDeletedEvent for the root was delivered: {rootdel[:1]})" if rootdel else ""), history=self.ops[-30:])
+                    else:
+                        self.inconclusive = "sentinel not delivered within the watchdog and no library thread died"
         finally:
+            if getattr(self, "_bg", None):
+                self._bg[0].set()
+                self._bg[1].join(5)
+                self._bg = None
             if sess is not None:
                 try:
                     sess.close()
                 except Exception:  # noqa: BLE001
+                    pass
+            if getattr(self, "_bg_fd", None) is not None:
+                try:
+                    os.close(self._bg_fd)
+                except OSError:
                     pass
             set_read_size(None)
             u.cleanup()
